@@ -413,6 +413,39 @@ func checkC06Signed(r *Report, p *Prog) {
 			}
 		}
 		r.Check(s1, rule, fmt.Sprintf("%s: the tree signed is %s.Element()", p.FnName(fn), so.objType), p.InstrPos(sign.I), "SignEnveloped(Element())", "the signature is computed over something other than the object's own element tree")
+		// S0: the tree that is signed carries no earlier signature. Element() re-embeds the stored Signature; an object
+		// that outlives the call (req.Assertion: the function is exported and is entered again after a failed
+		// encryption step) must have the field reset before the tree is built, a fresh local needs nothing
+		for _, e := range elems {
+			if !rg.DerivesFrom(RV{V: signCall.Call.Args[1], C: sign.C}, e) {
+				continue
+			}
+			ec := e.I.(*ssa.Call)
+			fresh := true
+			recvOs := rg.Origins(RV{V: ec.Call.Args[0], C: e.C})
+			for _, ro := range recvOs {
+				if _, isAlloc := ro.V.(*ssa.Alloc); !isAlloc {
+					fresh = false
+				}
+			}
+			reset := false
+			rg.Each(func(x RI) {
+				st, ok := x.I.(*ssa.Store)
+				if !ok || !isNilConst(st.Val) {
+					return
+				}
+				fa, ok := st.Addr.(*ssa.FieldAddr)
+				if !ok || fieldName(fa.X.Type(), fa.Field) != "Signature" || !typeIs(fa.X.Type(), modPath, so.objType) {
+					return
+				}
+				ra := rg.Ctx(a, x.C).AP(fa.X)
+				rb := rg.Ctx(a, e.C).AP(ec.Call.Args[0])
+				if ra == rb && rg.Before(x, e) {
+					reset = true
+				}
+			})
+			r.Check(len(recvOs) > 0 && fresh || reset, rule, fmt.Sprintf("%s: the tree handed to SignEnveloped carries no earlier Signature", p.FnName(fn)), p.InstrPos(e.I), "fresh object, or Signature reset to nil before Element()", "the element tree is built from an object that may still hold the Signature of an earlier signing: Element() embeds it, the new signature digests it, and the emitted element (which carries only the new Signature) does not verify")
+		}
 		// S2: Signature field stored from the signed result under err == nil
 		var sigStore RI
 		rg.Each(func(x RI) {
@@ -421,6 +454,9 @@ func checkC06Signed(r *Report, p *Prog) {
 				return
 			}
 			if fa, ok := st.Addr.(*ssa.FieldAddr); ok && fieldName(fa.X.Type(), fa.Field) == "Signature" && typeIs(fa.X.Type(), modPath, so.objType) {
+				if isNilConst(st.Val) {
+					return // the reset before signing (S0)
+				}
 				sigStore = x
 			}
 		})
